@@ -93,6 +93,32 @@ Theorem C13_key_accepted_iff : forall psk, new_obfs psk = Ok psk <-> (4 <= lengt
 Proof. exact key_accepted_iff. Qed.
 Print Assumptions C13_key_accepted_iff.
 
+(* The key rule is over bytes.  Whether a key is accepted or refused depends on the number of its bytes
+   only - two keys of the same length are treated alike, whatever their bytes spell (multi-byte UTF-8
+   sequences, bytes that are no UTF-8, NULs) -, and a key is refused exactly when it has fewer than 4. *)
+Theorem C13_key_rule_bytes_only : forall psk psk', length psk = length psk' ->
+  (new_obfs psk = Ok psk <-> new_obfs psk' = Ok psk') /\
+  (new_obfs psk = Err EInvalid <-> new_obfs psk' = Err EInvalid).
+Proof. exact key_rule_bytes_only. Qed.
+Print Assumptions C13_key_rule_bytes_only.
+
+Theorem C13_key_refused_iff : forall psk, new_obfs psk = Err EInvalid <-> (length psk < 4)%nat.
+Proof. exact key_refused_iff. Qed.
+Print Assumptions C13_key_refused_iff.
+
+(* Every key of 4 or more bytes round-trips, for ANY hash function: it is accepted as it is, and a
+   packet of 1..2040 bytes written with it (any 8-byte salt) comes back unchanged from a wrapper with
+   the same key bytes.  (proof/C13_Salamander.v key_rule_is_not_characters / nonascii_key_wire_image:
+   4-byte keys of one and two characters, with the wire image hashlib computes.) *)
+Theorem C13_every_key_of_4_bytes_round_trips : forall (H : list byte -> list byte) psk salt p plen addr,
+  (4 <= length psk)%nat -> length salt = 8%nat -> (1 <= length p <= 2040)%nat -> (length p <= plen)%nat ->
+  new_obfs psk = Ok psk /\
+  exists wire,
+    write_to H psk salt p None = Ok (wire, length p, None) /\
+    read_from H psk plen [mkEv wire addr None] = Ok (Some (mkR (length p) p addr None, [])).
+Proof. exact any_key_round_trips. Qed.
+Print Assumptions C13_every_key_of_4_bytes_round_trips.
+
 (* No panic (for C03): Obfuscate, Deobfuscate, WriteTo and any sequence of ReadFrom calls over any
    incoming sequence return normally, whatever the peer-controlled bytes, buffer sizes and key. *)
 Theorem C13_never_panics : forall (H : list byte -> list byte) psk salt p inp cap plens evs uerr,
